@@ -178,6 +178,101 @@ fn check_size(id: u8, w: u32, h: u32, pixels: &[(u32, u32)], rng: &mut Rng, rep:
             Err(p) => fail(rep, "panic", w, h, "roundtrip", format!("{} at {}", p.msg, short_loc(&p.loc))),
         }
     }
+    // 5. "equals the page that produced those bytes" whatever the page has been through: pixels set and cleared again
+    //    one by one, filled and cleared, cleared while already blank. Two pages with the same dimensions and the same
+    //    bytes are the same page: equal, equal hashes — and a page brought back to blank equals a new one.
+    if w > 0 && h > 0 {
+        use std::hash::{Hash, Hasher};
+        let hash_of = |p: &Page<'_>| {
+            let mut hasher = std::collections::hash_map::DefaultHasher::new();
+            p.hash(&mut hasher);
+            hasher.finish()
+        };
+        for variant in 0..4u32 {
+            let r = catch(|| {
+                let mut p = Page::new(PageId(id), w, h);
+                let mut touched = vec![];
+                let mut desc = vec![];
+                for _ in 0..1 + rng.usize(6) {
+                    let (x, y) = (rng.below(u64::from(w)) as u32, rng.below(u64::from(h)) as u32);
+                    p.set_pixel(x, y, true);
+                    touched.push((x, y));
+                }
+                desc.push(format!("set {} pixel(s)", touched.len()));
+                match variant {
+                    0 => {
+                        for &(x, y) in &touched {
+                            p.set_pixel(x, y, false);
+                        }
+                        desc.push("cleared each again with set_pixel".into());
+                    }
+                    1 => {
+                        p.set_all_pixels(false);
+                        p.set_all_pixels(false);
+                        desc.push("set_all_pixels(false) twice".into());
+                    }
+                    2 => {
+                        p.set_all_pixels(true);
+                        for x in 0..w {
+                            for y in 0..h {
+                                p.set_pixel(x, y, false);
+                            }
+                        }
+                        desc.push("filled, then every pixel cleared with set_pixel".into());
+                    }
+                    _ => {
+                        // not blank: all but the first touched pixel cleared
+                        for &(x, y) in touched.iter().skip(1) {
+                            if (x, y) != touched[0] {
+                                p.set_pixel(x, y, false);
+                            }
+                        }
+                        desc.push("cleared all but one again".into());
+                    }
+                }
+                let bytes = p.as_bytes().to_vec();
+                let from_slice = Page::from_bytes(w, h, &bytes[..]).ok();
+                let from_vec = Page::from_bytes(w, h, bytes.clone()).ok();
+                let fresh = Page::new(PageId(id), w, h);
+                let blank = bytes == fresh.as_bytes();
+                let mut bad = vec![];
+                for (label, q) in [("slice", &from_slice), ("vec", &from_vec)] {
+                    match q {
+                        None => bad.push(format!("from_bytes({}) rejected the page's own bytes", label)),
+                        Some(q) => {
+                            if *q != p || p != *q {
+                                bad.push(format!("page != from_bytes(its own bytes) ({})", label));
+                            }
+                            if hash_of(q) != hash_of(&p) {
+                                bad.push(format!("hash differs from from_bytes(its own bytes) ({})", label));
+                            }
+                        }
+                    }
+                }
+                if blank && (p != fresh || hash_of(&p) != hash_of(&fresh)) {
+                    bad.push("a page brought back to blank differs from a new page with the same id and size".into());
+                }
+                // (after a fill the unused bits below the last row may stay lit: nothing says otherwise, so only the
+                // histories that never lit them are required to end blank)
+                if variant < 2 && !blank {
+                    bad.push("page is not blank after every lit pixel was cleared".into());
+                }
+                (bad, desc.join(", "), blank)
+            });
+            rep.count("equality_after_history");
+            match r {
+                Ok((bad, desc, blank)) => {
+                    if blank {
+                        rep.count("equality_checked_on_pages_back_to_blank");
+                    }
+                    for b in bad {
+                        fail(rep, "roundtrip_not_equal", w, h, &format!("history: {}", desc), b);
+                    }
+                }
+                Err(p) => fail(rep, "panic", w, h, "equality after a history", format!("{} at {}", p.msg, short_loc(&p.loc))),
+            }
+        }
+    }
     if rep.wants_sample() {
         rep.sample(|| J::obj(vec![("size", J::s(format!("{}x{}", w, h))), ("id", J::u(id)), ("padded_len", J::us(expected_len)), ("pixels_checked", J::us(pixels.len()))]));
     }
@@ -261,6 +356,7 @@ pub fn run(ctx: &Ctx) -> Outcome {
         floor("sizes whose data ends on a 16-byte boundary", report.get("sizes_ending_on_16_byte_boundary") > 0, report.get("sizes_ending_on_16_byte_boundary")),
         floor("column byte counts 0..=5 all seen", report.set_len("column_bytes") >= 6, report.set_len("column_bytes")),
         floor("pixel placement also checked on borrowed pages with existing content", report.get("pixels_checked_on_borrowed_pages") > 10_000, report.get("pixels_checked_on_borrowed_pages")),
+        floor("equality with from_bytes(as_bytes()) after set/clear/fill histories, incl. pages brought back to blank", report.get("equality_checked_on_pages_back_to_blank") > 1000, report.get("equality_checked_on_pages_back_to_blank")),
         floor("from_bytes both accepted and rejected", report.get("from_bytes_accepted") > 0 && report.get("from_bytes_rejected") > 0, report.get("from_bytes_rejected")),
     ];
     Outcome {
